@@ -9,7 +9,7 @@
    The expected AST is unchanged by construction: it is the base statement's AST.       *)
 EXTENDS Grammar, Json, CSV, IOUtils, FiniteSets
 
-CONSTANTS KindsUsed, WithComments
+CONSTANTS KindsUsed, WithComments, AllOptionSubs   \* AllOptionSubs: SELECT clauses whose EVERY option is a base statement
 VARIABLES kind, sub, done
 vars == <<kind, sub, done>>
 
@@ -22,14 +22,20 @@ AlterAll == <<"dur", "repl", "shard", "def", "fut", "past">>
 RECURSIVE AlterTail(_, _, _)
 AlterTail(j, a, t) == IF j > Len(AlterAll) THEN [a |-> a, t |-> t]
                       ELSE AlterTail(j + 1, a @@ AlterOptAst(AlterAll[j]), t \o AlterOptTok(AlterAll[j]))
-\* single-slot kinds contribute every option as a base statement of its own
+\* every complete choice of one option per slot
+RECURSIVE AllBuilds(_, _, _)
+AllBuilds(SL, j, acc) == IF j > Len(SL) THEN acc
+                         ELSE AllBuilds(SL, j + 1, {[a |-> b.a @@ o.a, t |-> b.t \o o.t] : b \in acc, o \in SL[j]})
+\* single-slot kinds contribute every option as a base statement of its own; so do the SELECT
+\* clauses listed in AllOptionSubs (all other slots of "selectone" hold a single option)
 Bases(k, s) == LET SL == Slots(k, s) IN
   IF Len(SL) = 1 THEN {[a |-> o.a, t |-> o.t] : o \in SL[1]}
+  ELSE IF k = "selectone" /\ s \in AllOptionSubs THEN AllBuilds(SL, 1, {[a |-> <<>>, t |-> <<>>]})
   ELSE IF k = "alter" THEN LET b == BuildFrom(SL, 1, <<>>, <<>>) IN {AlterTail(1, b.a, b.t)}
   ELSE {BuildFrom(SL, 1, <<>>, <<>>)}
 
 WsGaps == <<"  ", "\t", "\n", "\r\n", "\r", " \n\t ">>
-CommentGaps == <<" /* c */ ", " -- c\n", "\n/* multi\nline */\n", " /**/ ", " /* a */ /* b */ -- c\n ">>
+CommentGaps == <<" /* c */ ", " -- c\n", "\n/* multi\nline */\n", " /**/ ", " /* a */ /* b */ -- c\n ", " -- c\r", " -- c\r\n", "\t--\n">>
 GapVariants == IF WithComments THEN WsGaps \o CommentGaps ELSE WsGaps
 
 \* a gap accepts whitespace when the grammar marks it loose, and also - although written without
